@@ -26,6 +26,8 @@ def rand_value(rng):
         return rng.randint(0, 50)
     if r < 0.55:
         return rng.choice(["a", "é✓", "x y", "it's", 'say "hi"', "line1\nline2", ""])
+    if r < 0.62:
+        return [rng.randint(100000, 999999) for _ in range(rng.randint(8, 20))]      # forces re-wrapping
     if r < 0.8:
         return [rng.randint(0, 9) for _ in range(rng.randint(0, 5))]
     if r < 0.9:
@@ -87,7 +89,17 @@ def gen(rng, tier, shape=None):
                           "v2": rng.randint(0, 9), "state2": rng.choice(["create", "fix", "ok"]), "seed": rng.randrange(10**6)})
         funs.append({"stmts": stmts, "tabs": rng.random() < 0.15})
     flags = sorted(c for c in common.CATS if rng.random() < 0.6)
-    return {"funs": funs, "flags": flags, "docstring": rng.random() < 0.3, "future": rng.random() < 0.25,
+    opts = {}
+    if rng.random() < 0.45:
+        if rng.random() < 0.5:
+            opts["line-length"] = rng.choice([40, 60, 100, 120])
+        if rng.random() < 0.5:
+            opts["skip-magic-trailing-comma"] = rng.random() < 0.5
+        if rng.random() < 0.4:
+            opts["skip-string-normalization"] = rng.random() < 0.5
+        if rng.random() < 0.2:
+            opts["preview"] = rng.random() < 0.5
+    return {"black": opts, "funs": funs, "flags": flags, "docstring": rng.random() < 0.3, "future": rng.random() < 0.25,
             "extra_import": rng.random() < 0.4, "clean": rng.random() < 0.4, "fmt_cmd": rng.random() < 0.1,
             "trailer": rng.choice(["", "\n# done ✓\n", "\nif __name__ == '__main__':\n    pass\n"]),
             "final_newline": rng.random() < 0.9, "crlf": rng.random() < 0.06}
@@ -148,12 +160,30 @@ def render(case):
     if case["clean"]:
         import black
         try:
-            text = black.format_str(text, mode=black.FileMode())
+            text = black.format_str(text, mode=black_mode(case))
         except Exception:  # noqa: BLE001
             pass
     if case["crlf"]:
         text = text.replace("\n", "\r\n")
     return text
+
+
+def black_mode(case):
+    """black's mode for the options of the case — the harness's own reading of black's documented options"""
+    import black
+    o = case.get("black") or {}
+    return black.FileMode(line_length=o.get("line-length", 88), magic_trailing_comma=not o.get("skip-magic-trailing-comma", False),
+                          string_normalization=not o.get("skip-string-normalization", False), preview=bool(o.get("preview", False)))
+
+
+def pyproject_for(case):
+    o = case.get("black") or {}
+    if not o:
+        return "[tool.black]\nline-length = 88\n"
+    lines = ["[tool.black]"]
+    for k, v in o.items():
+        lines.append(f"{k} = {str(v).lower() if isinstance(v, bool) else v}")
+    return "\n".join(lines) + "\n"
 
 
 def model_lines(case):
@@ -164,7 +194,7 @@ def run_impl(case):
     from .. import impl_inline
     text = render(case)
     data = text.encode("utf-8")
-    r = impl_inline.run_program({"test_case.py": data}, case["flags"], case["flags"],
+    r = impl_inline.run_program({"test_case.py": data}, case["flags"], case["flags"], pyproject=pyproject_for(case),
                                 format_command=("cat" if case["fmt_cmd"] else None))
     after = r["files_after"].get("test_case.py", "")
     obs = {"before": text, "after": after, "errors": [r["import_error"], r["apply_error"], r["collect_errors"]],
@@ -205,11 +235,11 @@ def compare(case, obs, model_out):
         return diffs
     pred = "".join(chr(int(c)) for c in o[1:])
     before_norm = obs["before"].replace("\r\n", "\n").replace("\r", "\n")
-    whole = case["fmt_cmd"] or is_clean(before_norm)
+    whole = case["fmt_cmd"] or is_clean(before_norm, case)
     if whole and not case["fmt_cmd"]:
         import black
         try:
-            pred2 = black.format_str(pred, mode=black.FileMode())
+            pred2 = black.format_str(pred, mode=black_mode(case))
         except Exception as e:  # noqa: BLE001
             pred2 = pred
     else:
@@ -220,10 +250,10 @@ def compare(case, obs, model_out):
     return diffs
 
 
-def is_clean(text):
+def is_clean(text, case=None):
     import black
     try:
-        return black.format_str(text, mode=black.FileMode()) == text
+        return black.format_str(text, mode=black_mode(case or {})) == text
     except Exception:  # noqa: BLE001
         return False
 
@@ -286,7 +316,7 @@ def oracle(case, obs):
         fails.append(("C03", "valid_python", f"rewritten file does not compile: {e}"))
         return fails
     b_norm = before.replace("\r\n", "\n").replace("\r", "\n")
-    whole = bool(case["fmt_cmd"]) or is_clean(b_norm)
+    whole = bool(case["fmt_cmd"]) or is_clean(b_norm, case)
     try:
         if masked_dump(before) != masked_dump(after):
             fails.append(("C03", "ast_outside_preserved", "syntax tree outside the snapshot() arguments changed"))
@@ -310,7 +340,7 @@ def oracle(case, obs):
         except Exception as e:  # noqa: BLE001
             fails.append(("C03", "valid_python", f"cannot locate snapshot calls: {type(e).__name__}: {e}"))
     else:
-        if not case["fmt_cmd"] and not is_clean(after.replace("\r\n", "\n")):
+        if not case["fmt_cmd"] and not is_clean(after.replace("\r\n", "\n"), case):
             fails.append(("C20", "clean_stays_clean", "file was formatter-clean before the rewrite and is not afterwards"))
     return fails
 
@@ -331,6 +361,8 @@ def signature(case):
 
 
 def histogram(case, obs, hist):
+    for k in sorted(case.get("black") or {}):
+        hist["black:" + k] = hist.get("black:" + k, 0) + 1
     for k in ("clean", "fmt_cmd", "crlf", "docstring", "future"):
         hist[f"{k}:{case[k]}"] = hist.get(f"{k}:{case[k]}", 0) + 1
     for f in case["funs"]:
